@@ -485,6 +485,8 @@ RULES = [
 from ..selftest import Mutant  # noqa: E402
 
 MUTANTS = [
+    Mutant('copy-of-a-source-assigned-elsewhere', COPY, "                if len(def_use.name_to_defs[d.site.expr.name]) != 1:\n                    continue\n", "", 'C07.G1',
+           'finding F8 before its repair: y = a; x = y; y = y + 1; return x  simplifies to a + 1'),
     Mutant('dce-analysis-of-another-function', DCE, "        func, eliminated = _DeadCodeEliminate(func, def_use).apply()", "        func, eliminated = _DeadCodeEliminate(SimplifyIf.apply(func), def_use).apply()", 'C07.P1'),
     Mutant('constants-merge-signed-zeros', 'fpy2/analysis/partial_eval.py', "        return a if _same_constant(a, b) else _TOP", "        return a if a == b else _TOP", 'C07.D1',
            'finding F30 before its repair'),
